@@ -208,6 +208,9 @@ func (in *input) state(spec *common.Spec) (common.BeaconState, error) {
 
 func u(v uint64) string { return strconv.FormatUint(v, 10) }
 
+func hexDecode(s string) ([]byte, error) { return hex.DecodeString(s) }
+func hexEncode(b []byte) string          { return hex.EncodeToString(b) }
+
 func listStr(l []common.ValidatorIndex) string {
 	if len(l) == 0 {
 		return "-"
@@ -326,6 +329,14 @@ func exec(o hreg.Opts, sc *bufio.Scanner, w *bufio.Writer) error {
 			if in, ok := parse(f); ok {
 				res = hreg.Guard(func() string { return run(f[0], in) })
 			}
+		}
+		if len(f) > 0 && (f[0] == "cpi" || f[0] == "csi") {
+			res = hreg.Guard(func() string {
+				if r, ok := runDirect(f); ok {
+					return r
+				}
+				return "bad-op"
+			})
 		}
 		fmt.Fprintln(w, res)
 	}
@@ -513,6 +524,20 @@ func gen(o hreg.Opts, w *bufio.Writer) error {
 		st.Add("op", "sync")
 		fmt.Fprintln(w, in.line("sync"))
 	}
+	// direct calls of the two sampling functions under rare / impossible acceptance (cutoff.go)
+	genDirect(rng, func(kind, line string) {
+		st.Add("op", strings.Fields(line)[0])
+		st.Add("direct", kind)
+		f := hreg.Fields(line)
+		if r, ok := runDirect(f); ok && f[0] == "cpi" {
+			if r == "err" {
+				st.Add("ComputeProposerIndex on the real code", "gave up after 32000 candidates (error returned)")
+			} else {
+				st.Add("ComputeProposerIndex on the real code", "returned an index")
+			}
+		}
+		fmt.Fprintln(w, line)
+	})
 	// malformed lines
 	good := (&input{fork: "phase0", spe: 8, tcs: 4, mcs: 4, src: 10, ephv: 64, msl: 1, meb: 32000000000, scs: 32, slot: 9,
 		vals: []val{{0, far, 32000000000}}}).line("comms")
